@@ -17,6 +17,9 @@ pub struct TreeCfg {
     /// the tree is a long list in which one big item occurs at both ends (and maybe in
     /// between): back-reference paths of around and beyond 63 bytes (two-byte length prefix)
     pub far_repeat: bool,
+    /// percent of atoms that are a near-duplicate of an earlier atom of the same tree: one byte
+    /// altered (last / first / anywhere), or one byte longer or shorter
+    pub near_dup_pct: u64,
 }
 
 impl TreeCfg {
@@ -28,6 +31,7 @@ impl TreeCfg {
             huge_atoms: false,
             pool_pct: 40,
             far_repeat: false,
+            near_dup_pct: 5,
         }
     }
     /// swarm: per-run random configuration
@@ -55,6 +59,7 @@ impl TreeCfg {
             huge_atoms: (thorough && rng.chance(1, 40)) || rng.chance(1, 1500),
             pool_pct: *rng.pick(&[0, 20, 50, 80]),
             far_repeat: rng.chance(1, 40),
+            near_dup_pct: *rng.pick(&[0, 0, 10, 30]),
         }
     }
 }
@@ -104,7 +109,8 @@ pub fn gen_atom(rng: &mut Rng, cfg: &TreeCfg) -> Vec<u8> {
             rng.bytes(n)
         }
         6 => {
-            let n = *rng.pick(&[32usize, 48, 96]);
+            // digest / key sizes and their neighbours
+            let n = *rng.pick(&[32usize, 48, 96, 32, 20, 19, 21, 31, 33, 64]);
             rng.bytes(n)
         }
         7 => {
@@ -195,6 +201,31 @@ pub fn gen_far_repeat(rng: &mut Rng) -> Sx {
     t.compact()
 }
 
+fn rng_pick_clone(rng: &mut Rng, v: &[Vec<u8>]) -> Vec<u8> {
+    v[rng.usize(v.len())].clone()
+}
+
+/// an atom that differs from `b` as little as possible
+pub fn near_duplicate(rng: &mut Rng, mut b: Vec<u8>) -> Vec<u8> {
+    if b.is_empty() {
+        return vec![rng.below(256) as u8];
+    }
+    let n = b.len();
+    match rng.below(10) {
+        0..=4 => b[n - 1] ^= 1 << rng.below(8),
+        5 => b[0] ^= 1 << rng.below(8),
+        6..=7 => {
+            let i = rng.usize(n);
+            b[i] = b[i].wrapping_add(1 + rng.below(255) as u8);
+        }
+        8 => b.push(rng.below(256) as u8),
+        _ => {
+            b.pop();
+        }
+    }
+    b
+}
+
 pub fn gen_tree(rng: &mut Rng, cfg: &TreeCfg) -> Sx {
     if cfg.far_repeat {
         return gen_far_repeat(rng);
@@ -208,12 +239,19 @@ pub fn gen_tree(rng: &mut Rng, cfg: &TreeCfg) -> Sx {
     };
     let mut forest: Vec<u32> = Vec::new();
     let mut total_bytes = 0usize;
+    let mut recent: Vec<Vec<u8>> = Vec::new();
     for _ in 0..leaves {
-        let a = if rng.below(100) < cfg.pool_pct {
+        let a = if !recent.is_empty() && rng.below(100) < cfg.near_dup_pct {
+            let base = rng_pick_clone(rng, &recent);
+            near_duplicate(rng, base)
+        } else if rng.below(100) < cfg.pool_pct {
             rng.pick(&pool).clone()
         } else {
             gen_atom(rng, cfg)
         };
+        if a.len() <= 128 && recent.len() < 64 {
+            recent.push(a.clone());
+        }
         total_bytes += a.len();
         // keep the whole workload item bounded (~6 MiB of atom bytes)
         let a = if total_bytes > 6 << 20 { vec![1, 2, 3, 4, 5] } else { a };
